@@ -78,6 +78,32 @@ int main(void)
             else m = -rc + 1000;   /* unexpected: authentication itself failed */
             printf("v=%d m=%d\n", v, m);
             psX509FreeCert(leaf); psX509FreeCert(ca); free(expected);
+        } else if (g_ntok == 7 && strcmp(g_tok[0], "ne") == 0) {
+            /* end to end: ne <skip> <alwayscn> <emailci> <nametype> <expected hex> <certificate DER hex>: a certificate assembled and
+               signed (testkeys RSA2048 CA) by the check goes through psX509ParseCert and matrixValidateCertsExt unmodified */
+            matrixValidateCertsOptions_t opts; memset(&opts, 0, sizeof(opts));
+            if (g_tok[1][0] == '1') opts.flags |= VCERTS_FLAG_SKIP_EXPECTED_NAME_VALIDATION;
+            if (g_tok[2][0] == '1') opts.mFlags |= VCERTS_MFLAG_ALWAYS_CHECK_SUBJECT_CN;
+            if (g_tok[3][0] == '1') opts.mFlags |= VCERTS_MFLAG_SAN_EMAIL_CASE_INSENSITIVE_LOCAL_PART;
+            opts.nameType = atoi(g_tok[4]);
+            unsigned char *expected, *der; unhex(g_tok[5], &expected); size_t dl = unhex(g_tok[6], &der);
+            psX509Cert_t *leaf = NULL, *ca = NULL, *found = NULL;
+            g_pin_year = 2020;
+            int v = psX509ValidateGeneralName((char *) expected) == 0;
+            int32 prc = psX509ParseCert(NULL, der, (uint32) dl, &leaf, 0);
+            if (prc < 0 || psX509ParseCert(NULL, RSA2048CA, sizeof(RSA2048CA), &ca, 0) < 0) {
+                printf("v=%d m=P%d\n", v, (int) -prc);
+            } else {
+                int32 rc = matrixValidateCertsExt(NULL, leaf, ca, (char *) expected, &found, NULL, NULL, &opts);
+                int m;
+                if (rc == 0) m = 1;
+                else if (rc == PS_CERT_AUTH_FAIL_EXTENSION && (leaf->authFailFlags & PS_CERT_AUTH_FAIL_SUBJECT_FLAG)) m = 0;
+                else m = -rc + 1000;
+                printf("v=%d m=%d\n", v, m);
+            }
+            if (leaf) psX509FreeCert(leaf);
+            if (ca) psX509FreeCert(ca);
+            free(expected); free(der);
         } else printf("BADCASE\n");
         fflush(stdout);
     }
